@@ -493,6 +493,108 @@ fn s_names8() -> Shape<(u32, u32, u32, u32)> {
     Shape { name: "s_names8", sync_name: "k_names8", async_name: "ka_names8", sync_call: |t: &(u32, u32, u32, u32)| k_names8(t.0, t.1, t.2, t.3), async_call: |t: &(u32, u32, u32, u32)| vhooks::block_on(ka_names8(t.0, t.1, t.2, t.3)) }
 }
 
+// parameters bound through patterns (destructured in the signature): how the callee binds an
+// argument is invisible to the caller, so every component still has to reach the key.  Written by
+// hand for the same reason as above.
+#[cache]
+pub fn k_pat_tup((a, b): (i32, i32)) -> u64 {
+    let _ = (a, b);
+    next_serial()
+}
+#[cache_async]
+pub async fn ka_pat_tup((a, b): (i32, i32)) -> u64 {
+    let _ = (a, b);
+    next_serial()
+}
+fn s_pat_tup() -> Shape<((i32, i32),)> {
+    Shape { name: "s_pat_tup", sync_name: "k_pat_tup", async_name: "ka_pat_tup", sync_call: |t: &((i32, i32),)| k_pat_tup(t.0), async_call: |t: &((i32, i32),)| vhooks::block_on(ka_pat_tup(t.0)) }
+}
+#[cache]
+pub fn k_pat_mix(n: i32, (lo, hi): (u8, u8), z: i32) -> u64 {
+    let _ = (n, lo, hi, z);
+    next_serial()
+}
+#[cache_async]
+pub async fn ka_pat_mix(n: i32, (lo, hi): (u8, u8), z: i32) -> u64 {
+    let _ = (n, lo, hi, z);
+    next_serial()
+}
+fn s_pat_mix() -> Shape<(i32, (u8, u8), i32)> {
+    Shape { name: "s_pat_mix", sync_name: "k_pat_mix", async_name: "ka_pat_mix", sync_call: |t: &(i32, (u8, u8), i32)| k_pat_mix(t.0, t.1, t.2), async_call: |t: &(i32, (u8, u8), i32)| vhooks::block_on(ka_pat_mix(t.0, t.1, t.2)) }
+}
+#[derive(Debug, Clone, Copy, PartialEq)]
+pub struct Pt {
+    pub x: i32,
+    pub y: i64,
+}
+impl cachelito_core::DefaultCacheableKey for Pt {}
+impl vhooks::Dg for Pt {
+    fn dg(&self, h: &mut vhooks::Hs) {
+        h.byte(106);
+        self.x.dg(h);
+        self.y.dg(h);
+    }
+}
+impl Adv for Pt {
+    fn gen(r: &mut Rng) -> Self {
+        Pt { x: i32::gen(r), y: i64::gen(r) }
+    }
+    fn mutate(&self, r: &mut Rng) -> Self {
+        let mut s = *self;
+        if r.chance(1, 2) {
+            s.x = s.x.mutate(r)
+        } else {
+            s.y = s.y.mutate(r)
+        }
+        s
+    }
+}
+#[derive(Debug, Clone, Copy, PartialEq)]
+pub struct Wr(pub u64);
+impl cachelito_core::DefaultCacheableKey for Wr {}
+impl vhooks::Dg for Wr {
+    fn dg(&self, h: &mut vhooks::Hs) {
+        h.byte(107);
+        self.0.dg(h);
+    }
+}
+impl Adv for Wr {
+    fn gen(r: &mut Rng) -> Self {
+        Wr(u64::gen(r))
+    }
+    fn mutate(&self, r: &mut Rng) -> Self {
+        Wr(self.0.mutate(r))
+    }
+}
+#[cache]
+pub fn k_pat_struct(Pt { x, y }: Pt, Wr(v): Wr) -> u64 {
+    let _ = (x, y, v);
+    next_serial()
+}
+#[cache_async]
+pub async fn ka_pat_struct(Pt { x, y }: Pt, Wr(v): Wr) -> u64 {
+    let _ = (x, y, v);
+    next_serial()
+}
+fn s_pat_struct() -> Shape<(Pt, Wr)> {
+    Shape { name: "s_pat_struct", sync_name: "k_pat_struct", async_name: "ka_pat_struct", sync_call: |t: &(Pt, Wr)| k_pat_struct(t.0, t.1), async_call: |t: &(Pt, Wr)| vhooks::block_on(ka_pat_struct(t.0, t.1)) }
+}
+impl Recv {
+    #[cache]
+    pub fn km_pat(&self, (row, col): (u32, u32)) -> u64 {
+        let _ = (row, col);
+        next_serial()
+    }
+    #[cache_async]
+    pub async fn kma_pat(&self, (row, col): (u32, u32)) -> u64 {
+        let _ = (row, col);
+        next_serial()
+    }
+}
+fn s_m_pat() -> Shape<(Recv, (u32, u32))> {
+    Shape { name: "s_m_pat", sync_name: "km_pat", async_name: "kma_pat", sync_call: |t| t.0.km_pat(t.1), async_call: |t| vhooks::block_on(t.0.kma_pat(t.1)) }
+}
+
 // methods
 impl Recv {
     #[cache]
@@ -673,7 +775,7 @@ fn main() {
     let pairs: u64 = std::env::var("VERIF_KEY_PAIRS").ok().and_then(|s| s.parse().ok()).unwrap_or(if tier == "thorough" { 400_000 } else { 6_000 });
     let mut rng = Rng::new(seed.wrapping_mul(0x9E37_79B9) ^ ((shard.0 as u64) << 32));
     macro_rules! go { ($($s:ident),*) => { $( { let sh = $s(); let mut r = rng.fork(hash_str(sh.name)); run_shape(&sh, &mut rep, &mut r, pairs); rep.count("C02", "shapes_x_flavours", 2); } )* } }
-    go!(s_string, s_str, s_i64, s_f64, s_char, s_optstr, s_vecstr, s_tup, s_optopt, s_slice, s_users, s_usere, s_str2, s_ref2, s_int2, s_u64x2, s_strint, s_intstr, s_char2, s_f64x2, s_optstr_str, s_vec2, s_boolstr, s_str3, s_u8x3, s_five, s_m_ref, s_m_noarg, s_m_int2, s_u128, s_i8x3, s_f32x2, s_nested, s_optvec, s_vecopt, s_sos, s_vecint2, s_usize_str, s_m_val, s_m_mut, s_names1, s_names2, s_names3, s_names4, s_names5, s_names6, s_names7, s_names8, s_i128, s_vecwide);
+    go!(s_string, s_str, s_i64, s_f64, s_char, s_optstr, s_vecstr, s_tup, s_optopt, s_slice, s_users, s_usere, s_str2, s_ref2, s_int2, s_u64x2, s_strint, s_intstr, s_char2, s_f64x2, s_optstr_str, s_vec2, s_boolstr, s_str3, s_u8x3, s_five, s_m_ref, s_m_noarg, s_m_int2, s_u128, s_i8x3, s_f32x2, s_nested, s_optvec, s_vecopt, s_sos, s_vecint2, s_usize_str, s_m_val, s_m_mut, s_names1, s_names2, s_names3, s_names4, s_names5, s_names6, s_names7, s_names8, s_i128, s_vecwide, s_pat_tup, s_pat_mix, s_pat_struct, s_m_pat);
     rep.notes.push(format!("keymon shard {}/{} seed {} tier {} pairs/shape {} wall {:.2}s", shard.0, shard.1, seed, tier, pairs, t0.elapsed().as_secs_f64()));
     rep.write(&out);
 }
